@@ -34,6 +34,11 @@ Record runner := mkR {
   r_model : nat; r_key : okey; r_ref : N; r_dur : Z; r_tm : tstate;
   r_loading : bool; r_closed : bool; r_mu : option nat; r_closes : nat }.
 
+(* needsReload, read under refMu(r): the options are compatible and the runner is not one whose load was abandoned.
+   refMu(r) is held by load()'s goroutine for the whole load, so whoever sees loading = true under refMu(r) looks at a
+   runner whose load failed or was cancelled (load() marks it with Options = nil) and whose expired event is queued. *)
+Definition reusable (x : runner) (qk : okey) : bool := negb (r_loading x) && compat (r_key x) qk.
+
 Inductive reply := ROk (r : nat) (closed : bool) | RErr | RBusy.
 
 Record rspec := mkSpec { sp_model : nat; sp_key : okey; sp_ka : option Z; sp_bad : bool }.
@@ -274,7 +279,7 @@ Definition run_pc (c : config) (s : state) (t : nat) (p : pc) (alt : Z) : option
   | PNr q r =>
       x <- getr s r ;; y <- getq s q ;;
       guard (is_none (r_mu x) && Z.eqb alt 0) (
-      if r_closed x || negb (compat (r_key x) (sp_key (q_spec y))) then Some (goto s t (PExp q r), [])
+      if r_closed x || negb (reusable x (sp_key (q_spec y))) then Some (goto s t (PExp q r), [])
       else Some (goto (setr s r (r_set_mu x (Some t))) t (PPing q r), []))
   | PPing q r =>
       x <- getr s r ;;
